@@ -650,6 +650,7 @@ static int
 has_traits_setattro(has_traits_object *obj, PyObject *name, PyObject *value)
 {
     trait_object *trait;
+    int result;
 
     if ((obj->itrait_dict == NULL)
         || ((trait = (trait_object *)dict_getitem(obj->itrait_dict, name))
@@ -661,7 +662,14 @@ has_traits_setattro(has_traits_object *obj, PyObject *name, PyObject *value)
         }
     }
 
-    return trait->setattr(trait, trait, obj, name, value);
+    /* The trait is borrowed from one of the trait dictionaries: keep it alive
+       while user code (validators, handlers) runs, since that code may remove
+       the trait from the object. */
+    Py_INCREF(trait);
+    result = trait->setattr(trait, trait, obj, name, value);
+    Py_DECREF(trait);
+
+    return result;
 }
 
 /*-----------------------------------------------------------------------------
